@@ -853,7 +853,8 @@ fn main() {
                         }
                     }
                 }
-                if let Some(mf) = mech_out.as_mut().filter(|_| !sub && sc.unit == 1) {
+                // (limits beyond 10^6 packets per second are outside the integer range of the mechanism's window model)
+                if let Some(mf) = mech_out.as_mut().filter(|_| !sub && sc.unit == 1 && sc.pps.map_or(true, |p| p <= 1_000_000)) {
                     // mechanism view: the records SimMech emits (fired ev act exit agg aggpop recv)
                     {
                         writeln!(mf, "{}", lines[0]).unwrap();
